@@ -82,6 +82,12 @@ def gen_sched(ctx):
     for c in spec["comps"]:
         if c["kind"] == "time":
             c["mix"] = True
+    if rng.random() < 0.08:
+        # a component that declares itself FINISHED before the end time (as CsvReader does at its last row), level with
+        # the others: whether it matters must not depend on the listing order
+        tcs = [c for c in spec["comps"] if c["kind"] == "time"]
+        c = rng.choice(tcs)
+        c["finish_at"] = c["start"] + rng.randint(1, max(2, spec["end"] - 1))
     spec.pop("order", None)
     return spec
 
